@@ -127,6 +127,13 @@ func (t *Target) handle(w http.ResponseWriter, r *http.Request) {
 	}
 	t.last = now
 	switch {
+	case r.Header.Get("Url") != "":
+		e.At, e.Val = "hurl", Project(r.Header.Get("Url"))
+	case r.Header.Get("Body") != "":
+		e.At, e.Val = "hbody", Project(r.Header.Get("Body"))
+		if string(body) != "lit=1" { // record what arrived instead of the configured literal body
+			e.At = "hbody+body=" + string(body)
+		}
 	case r.URL.Query().Has("v"):
 		e.At, e.Val = "uri", Project(r.URL.Query().Get("v"))
 	case r.Header.Get("X-Val") != "":
